@@ -104,7 +104,7 @@ func vfBurst(s *vfSeq, r *kit.Rand, bc vfBurstCfg, avgLo, avgHi *float64, burstN
 	t := s.vc.Advance(bc.Gap)
 	vfCPU.Store(bc.Cpu)
 	over := bc.Cpu >= s.cfg.Th
-	hot := vfHot(s.m, t)
+	hot := vfHotMay(s.m, t)
 	trigger := over || hot
 	capLo, capv, _, _, _ := vfCap(s.m, t)
 	F0 := s.m.flying
@@ -237,12 +237,12 @@ func vfBurst(s *vfSeq, r *kit.Rand, bc vfBurstCfg, avgLo, avgHi *float64, burstN
 	if allows > 0 {
 		if over {
 			s.m.lastOver, s.m.everOver = t, true
-		} else if s.m.dropped && s.m.everOver && !hot {
-			s.m.dropped = false
+		} else {
+			vfNoteBelow(s.m, t)
 		}
 	}
 	if sheds > 0 {
-		s.m.dropped = true
+		s.m.dropped, s.m.dropMay = true, true
 	}
 	s.m.drops += sheds
 	s.m.admitted += A
